@@ -8,6 +8,6 @@ mkdir -p target evidence replays
 RUSTFLAGS="--cfg nexosim_verif --cfg nexosim_verif_shuttle --cfg async_event_loom" \
   cargo build --release --offline --target-dir $V/target/e1
 # Engine E2: pre-build the harness for Miri (dependencies are interpreted, the build only checks them).
-RUSTFLAGS="--cfg nexosim_verif" MIRIFLAGS="-Zmiri-disable-isolation" CARGO_TARGET_DIR=$V/target/miri \
-  cargo +nightly miri run --offline --no-default-features --quiet -- e2 C15 0 1 >$V/target/build-e2.log 2>&1 || { echo "E2 (Miri) build failed, see $V/target/build-e2.log"; tail -20 $V/target/build-e2.log; exit 1; }
+RUSTFLAGS="--cfg nexosim_verif" MIRIFLAGS="-Zmiri-isolation-error=warn-nobacktrace" CARGO_TARGET_DIR=$V/target/miri \
+  cargo +nightly miri run --offline --no-default-features --quiet -- e2 C15 0 1 20260922 "[]" >$V/target/build-e2.log 2>&1 || { echo "E2 (Miri) build failed, see $V/target/build-e2.log"; tail -20 $V/target/build-e2.log; exit 1; }
 echo "setup ok"
